@@ -89,6 +89,12 @@ func c18r1(c *Check) {
 						c.Violate(fmt.Sprintf("%s store %s[i]", fname, typeElem(ia.X.Type())), c.At(in), "element store into a slice derived from the published snapshot")
 					}
 				}
+				// the snapshot itself is a pointer (Store(&config)): a field assignment through what Load returned
+				// changes the very object that dispatchers are reading
+				if fa, ok := x.Addr.(*ssa.FieldAddr); ok && isPublishedPointer(c.P, fa.X, 0) {
+					n++
+					c.Violate(fmt.Sprintf("%s store snapshot.%s", fname, fieldOfAddr(fa).Name()), c.At(in), "a field of the published snapshot object is assigned in place (the atomic.Value holds a pointer, and the pointer that Load returned is written through): dispatchers that loaded the snapshot earlier see the table change under them, and the Store that follows publishes the same object again")
+				}
 			}
 		})
 	}
@@ -989,4 +995,43 @@ func storeCallersHoldLock(p *Prog, fn *ssa.Function, base ssa.Value, depth int) 
 		return false
 	}
 	return true
+}
+
+// isPublishedPointer: v is the pointer that an atomic Load of a published snapshot returned (through a
+// type assertion to a pointer type), possibly passed on through phis and parameters.
+func isPublishedPointer(p *Prog, v ssa.Value, depth int) bool {
+	if depth > 3 {
+		return false
+	}
+	switch x := v.(type) {
+	case *ssa.TypeAssert:
+		if _, isPtr := x.AssertedType.Underlying().(*types.Pointer); isPtr && isSnapshotLoad(x) {
+			return true
+		}
+	case *ssa.Extract:
+		if ta, ok := x.Tuple.(*ssa.TypeAssert); ok && x.Index == 0 {
+			return isPublishedPointer(p, ta, depth)
+		}
+	case *ssa.Phi:
+		for _, e := range x.Edges {
+			if isPublishedPointer(p, e, depth+1) {
+				return true
+			}
+		}
+	case *ssa.Parameter:
+		if args, ok := p.paramArgs(x); ok {
+			for _, a := range args {
+				if isPublishedPointer(p, a, depth+1) {
+					return true
+				}
+			}
+		}
+	case *ssa.UnOp:
+		if al, ok := x.X.(*ssa.Alloc); ok && x.Op == token.MUL {
+			if cv := cellValue(al); cv != nil {
+				return isPublishedPointer(p, cv, depth+1)
+			}
+		}
+	}
+	return false
 }
